@@ -241,6 +241,50 @@ Section Sort.
     rewrite insert_sel by apply isort_sorted. now rewrite IH.
   Qed.
 
+  (* a list sorted by key is determined by its stable selections: two sorted lists in which, for every key k, the
+     elements equivalent to k appear in the same order are equal (no transitivity needed) *)
+  Lemma leb_refl a : leb a a = true.
+  Proof. destruct (leb_total a a); assumption. Qed.
+
+  Lemma sel_In k x l : In x (sel k l) -> In x l.
+  Proof. unfold sel. intro H. apply filter_In in H. tauto. Qed.
+
+  Lemma In_sel_self x l : In x l -> In x (sel (fst x) l).
+  Proof. intro H. unfold sel. apply filter_In. split; [assumption|]. unfold keq. now rewrite leb_refl. Qed.
+
+  Lemma sorted_stable_unique l1 : forall l2,
+    StronglySorted le_pair l1 -> StronglySorted le_pair l2 ->
+    (forall k, sel k l1 = sel k l2) -> l1 = l2.
+  Proof.
+    induction l1 as [|x l1 IH]; intros l2 S1 S2 H.
+    - destruct l2 as [|y l2]; [reflexivity|].
+      specialize (H (fst y)). simpl in H. unfold keq in H. rewrite leb_refl in H. simpl in H. discriminate.
+    - destruct l2 as [|y l2].
+      + specialize (H (fst x)). simpl in H. unfold keq in H. rewrite leb_refl in H. simpl in H. discriminate.
+      + inversion S1 as [|? ? S1' F1]; subst. inversion S2 as [|? ? S2' F2]; subst.
+        assert (Hxy : leb (fst x) (fst y) = true).
+        { assert (Hin : In y (x :: l1)).
+          { apply sel_In with (k := fst y). rewrite H. apply In_sel_self. now left. }
+          destruct Hin as [<-|Hin]; [apply leb_refl|]. rewrite Forall_forall in F1. exact (F1 _ Hin). }
+        assert (Hyx : leb (fst y) (fst x) = true).
+        { assert (Hin : In x (y :: l2)).
+          { apply sel_In with (k := fst x). rewrite <- H. apply In_sel_self. now left. }
+          destruct Hin as [<-|Hin]; [apply leb_refl|]. rewrite Forall_forall in F2. exact (F2 _ Hin). }
+        assert (Exy : x = y).
+        { pose proof (H (fst x)) as Hk. simpl in Hk. unfold keq in Hk.
+          rewrite leb_refl, Hyx, Hxy in Hk. simpl in Hk. now inversion Hk. }
+        subst y. f_equal. apply IH; try assumption.
+        intro k. specialize (H k). simpl in H. destruct (keq (fst x) k); [now inversion H|exact H].
+  Qed.
+
+  (* hence the stable sort is THE sorted stable rearrangement *)
+  Lemma isort_unique l s :
+    StronglySorted le_pair s -> (forall k, sel k s = sel k l) -> s = isort l.
+  Proof.
+    intros Ss Hs. apply sorted_stable_unique; [assumption|apply isort_sorted|].
+    intro k. now rewrite Hs, isort_stable.
+  Qed.
+
   (* keys read along the sort index are non-decreasing *)
   Lemma isort_keys_sorted l : StronglySorted (fun a b => leb a b = true) (map fst (isort l)).
   Proof.
